@@ -426,6 +426,14 @@ def zero_cases(tier):
     for c3 in (-1, 0.5, 1):
         for others in itertools.product((-1, 0, 0.5), repeat=4):
             yield {"part": "zero", "family": "cubic", "coefs": [c3] + list(others)}
+    # scale slice: the same descent on models scaled by exact powers of two (energy differences of 1e-15 resp. 1e12)
+    for sc in (-50, 40):
+        for c3 in (-1, 0.5, 1):
+            for others in itertools.product((-1, 0, 0.5), repeat=4):
+                yield {"part": "zero", "family": "cubic", "coefs": [c3] + list(others), "log2_scale": sc}
+        for j, combo in enumerate(itertools.product(GRID, repeat=6)):
+            if j % 61 == 0:
+                yield {"part": "zero", "family": "quadratic", "coefs": list(combo), "log2_scale": sc}
     for nm in ("chain3", "field3", "cubic3f", "ferro2"):
         yield {"part": "zero-random", "model": nm}
 
@@ -443,6 +451,8 @@ def check_zero(case, st):
         forms = [("PUSOMatrix", "spin", False, s.anneal_puso)]
     if not any(k for k in D):
         return
+    scale = 2.0 ** case.get("log2_scale", 0)
+    D = {k: v * scale for k, v in D.items()}
     top = max(i for k in D for i in k)
     N = top + 1
     labels = list(range(N))
@@ -479,14 +489,14 @@ def check_zero(case, st):
                                  "C12 %s(%s %s) at T=0, %d sweep(s) in order from %r with num_anneals=3: the anneals end in %r, every one must end in the reference state %r "
                                  "(each anneal starts from the supplied initial state)" % (f.__name__, cont, D, nsweeps, init, finals, want))
                 a = finals[0]
-                if E[a] > E[start] + 1e-12:
+                if E[a] > E[start] + 1e-12 * scale:
                     st.violation("zero-temp|energy-increased|%s" % f.__name__, dict(case, start=start, Ts=Ts),
                                  "C12 %s(%s %s) at T=0 from %r: final value %r > initial value %r" % (f.__name__, cont, D, init, E[a], E[start]))
                 elif not tie and a != want:
                     st.violation("zero-temp|final-state|%s" % f.__name__, dict(case, start=start, Ts=Ts),
                                  "C12 %s(%s %s) at T=0, %d sweep(s) in order from %r: final state %r, reference descent gives %r"
                                  % (f.__name__, cont, D, nsweeps, init, rp.assignment(a, labels, True), rp.assignment(want, labels, True)))
-                if abs(res[0].value - E[a]) > 1e-9:
+                if abs(res[0].value - E[a]) > 1e-9 * scale:
                     st.violation("zero-temp|value|%s" % f.__name__, dict(case, start=start, Ts=Ts),
                                  "C12 %s(%s %s): reported value %r, model value at the final state %r" % (f.__name__, cont, D, res[0].value, E[a]))
                 st.outcomes["tie" if tie else "strict"] += 1
@@ -800,7 +810,7 @@ def run(ctx):
     tp.lib()
     ctx.bounds = {"models": [[m[0], m[1], m[2], rp.jdict(m[3])] for m in MODELS], "temperatures": [1, 2],
                   "max_update_steps": {"in_order": 6, "random_order": 3 if ctx.quick else 4},
-                  "zero_temperature_grid": "all 5^6 quadratic models over 3 spins with coefficients %s; cubic family 3*3^4; 1 and 2 sweeps; all initial states" % (GRID,),
+                  "zero_temperature_grid": "all 5^6 quadratic models over 3 spins with coefficients %s; cubic family 3*3^4; 1 and 2 sweeps; all initial states; the cubic family and every 61st quadratic model again scaled by 2^-50 and 2^40" % (GRID,),
                   "seeds": SEEDS, "tolerance": TOL}
     ctx.rule = ("case = (model, order, schedule, initial state) -> all tapes; or one zero-temperature model -> all initial states; "
                 "states = distinct complete tapes (leaves); transitions = choice points expanded; non-trivial = more than one tape")
